@@ -77,12 +77,15 @@ static mInstance root;
 static int N;
 static pthread_barrier_t bar;
 static void* grower(void* p) { mInstance* i = (mInstance*)p; int k; pthread_barrier_wait(&bar); for (k = 0; k < N; k++) { (void)m_grow(i, (U32)(k % 3 == 0)); (void)m_size(i); } return NULL; }
+/* child instances created WHILE other threads are inside memory.grow / memory.size (what thread-spawn does): creating one must not
+ * touch the state of the shared memory's descriptor */
+static void* spawner(void* p) { int k; (void)p; pthread_barrier_wait(&bar); for (k = 0; k < N / 4 + 1; k++) { mInstance* c = (mInstance*)root.common.newChild((wasmModuleInstance*)&root); (void)m_size(c); } return NULL; }
 static void* user(void* p) { mInstance* i = (mInstance*)p; int k; U32 acc = 0; pthread_barrier_wait(&bar); for (k = 0; k < N; k++) { m_store32(i, 64, (U32)k); acc += m_load32(i, 64); acc += m_size(i); } return (void*)(size_t)acc; }
 int main(int argc, char** argv) {
     pthread_t th[8]; int t, T = atoi(argv[1]); N = atoi(argv[2]); (void)argc;
     mInstantiate(&root, VF_RESOLVER);
     pthread_barrier_init(&bar, NULL, (unsigned)T);
-    for (t = 0; t < T; t++) pthread_create(&th[t], NULL, t % 2 ? user : grower, root.common.newChild((wasmModuleInstance*)&root));
+    for (t = 0; t < T; t++) pthread_create(&th[t], NULL, t % 4 == 3 ? spawner : (t % 2 ? user : grower), root.common.newChild((wasmModuleInstance*)&root));
     for (t = 0; t < T; t++) pthread_join(th[t], NULL);
     printf("pages %u\n", m_memory(&root)->pages);
     return 0;
